@@ -299,9 +299,9 @@ def draw_forms(draw):
             "np_int": draw(st.sampled_from(["int64", "int64", "int32", "uint8", "uint16"])),
             "ids_np": draw(st.integers(0, 3)) == 0, "frozen": draw(st.integers(0, 3)) == 0,
             "explicit": draw(st.integers(0, 4)) == 0, "dup_warn": draw(st.booleans()), "bad_call": draw(st.integers(0, 2)) == 0,
-            "recycle": draw(st.sampled_from([0, 0, 1, 2, 3])), "recycle_seed": draw(st.integers(0, 1000)),
+            "recycle": draw(st.sampled_from([0, 0, 0, 0, 2, 3])), "recycle_seed": draw(st.integers(0, 1000)),
             "mutate_arg": draw(st.integers(0, 2)) == 0, "mutate_pick": draw(st.integers(0, 10 ** 6)),
-            "copies": draw(st.integers(0, 2)) == 0}
+            "copies": draw(st.integers(0, 3)) == 0}
 
 
 def scaled(V, s):
@@ -566,7 +566,8 @@ def build(case, ctx, exercise=None):
         reused = False
         for r in range(rounds):
             vmc = variant_mesh(mc, int(case.get("recycle_seed", 0)) * 7 + r)
-            cls, raw = prepare_mesh(case, vmc, Model(vmc))
+            needs_model = bool(case.get("explicit")) and vmc["kind"] != "polyline"      # only explicit edge / face lists need it
+            cls, raw = prepare_mesh(case, vmc, Model(vmc) if needs_model else None)
             if pm is not None:
                 release_mesh(pm)
                 pm = None
@@ -896,7 +897,7 @@ def check_copies(ctx, tag, tree, n):
     ctx.label("copies")
     tabs = snapshot_tables(tree)
     trav = list(tree.traverse("BFS")), list(tree.traverse("DFS"))
-    kinds = [("copy", copy.copy)] + ([("deepcopy", copy.deepcopy)] if n <= 300 else [])
+    kinds = [("copy", copy.copy)] + ([("deepcopy", copy.deepcopy)] if n <= 150 else [])
     for name, f in kinds:
         ok, t2 = ctx.call(tag + name, f, tree)
         if not ok:
@@ -1443,10 +1444,10 @@ SUBCHECKS = [
     SubCheck("edge_tree", edge_tree_case(), fn_edge_tree, quick=1500, thorough=2500, watchdog=(90, 180)),   # deep paths take seconds
     # if the orientation loop of the MST ever runs on a cyclic edge set it grows its queue without bound (~1 GB/s): memory is bounded by
     # memory_cap (a MemoryError becomes a violation); the shorter watchdog only stops the slowly growing variants early
-    SubCheck("edge_mst", mst_case(), fn_mst, quick=1500, thorough=2500, watchdog=(10, 30)),
-    SubCheck("face_tree", face_tree_case(), fn_face_tree, quick=1100, thorough=2000),
-    SubCheck("cell_tree", cell_tree_case(), fn_cell_tree, quick=700, thorough=1500),
-    SubCheck("forests", forest_case(), fn_forest, quick=1100, thorough=2000, watchdog=(90, 180)),
+    SubCheck("edge_mst", mst_case(), fn_mst, quick=1200, thorough=2500, watchdog=(10, 30)),
+    SubCheck("face_tree", face_tree_case(), fn_face_tree, quick=900, thorough=2000),
+    SubCheck("cell_tree", cell_tree_case(), fn_cell_tree, quick=600, thorough=1500),
+    SubCheck("forests", forest_case(), fn_forest, quick=900, thorough=2000, watchdog=(90, 180)),
 ]
 
 def kf_mst_dense_attribute(case, violation):
